@@ -54,15 +54,39 @@ def listing_bodies(prog):
     out = []
     paging = prog.anchors.ty("Paging")
 
+    def complete(fid, memo={}):
+        """fid is a listing pipeline of its own: it cuts a page (skip and take, or asks Paging for the next page)"""
+        k = (id(prog), fid)
+        if k not in memo:
+            memo[k] = False
+            names, nextp = set(), False
+            for cid in prog.cone(fid, follow=("call", "closure")):
+                ci = prog.info(cid)
+                if ci is None or (ci.body.coroutine and cid != fid):
+                    continue
+                for bb, t in ci.calls():
+                    names.add(t.callee.path)
+                    if (t.callee.local or t.callee.res_local) and t.callee.target.startswith(paging + "::next_page"):
+                        nextp = True
+            cuts = ("std::iter::Iterator::skip" in names and "std::iter::Iterator::take" in names) or \
+                   (any(n.startswith(paging + "::") and n.split("::")[-1] in ("size",) for n in names) and
+                    any(n.startswith(paging + "::") and n.split("::")[-1] in ("to_skip", "offset") for n in names))
+            memo[k] = cuts and nextp
+        return memo[k]
+
     def want(ti, bb, t):
-        return _has_stage(prog, prog.qual(ti.body, t.callee.target))
+        fid = prog.qual(ti.body, t.callee.target)
+        fb = prog.facts.body(fid)
+        # a stage of the pipeline lives in the callee -- but a callee that is a whole listing of its own (the topic actor's
+        # list handler called from its dispatcher) stays a unit
+        return _has_stage(prog, fid) and not (fb is not None and fb.impl_self != paging and complete(fid))
 
     for b in prog.facts.lib_bodies():
         if b.impl_self == paging or b.kind == "Closure" and not b.coroutine:
             continue
         bi0 = prog.info(b.id)
         if not any((t.callee.local or t.callee.res_local) and (t.callee.impl_self == paging or t.callee.target.startswith(paging + "::")
-                                                              or _has_stage(prog, prog.qual(b, t.callee.target)))
+                                                              or want(bi0, bb, t))
                    for bb, t in bi0.calls()) and not any(t.callee.path in STAGE_CALLS for bb, t in bi0.calls()):
             continue
         vid = prog.inlined_variant(b.id, want)
@@ -145,9 +169,12 @@ def r13_1(prog, out):
             else:
                 out.holds(key, prog.loc(b.id), "accessor returns the stored size")
     # request parsing: negative sizes / undecodable tokens
-    pp = [b.id for b in prog.facts.lib_bodies() if b.kind == "Fn" and b.local_ty(0).startswith("std::result::Result<%s" % paging)]
+    # the paging parser: whoever builds a Paging from the request's page_size (a function of its own, or the list handlers)
+    pp = sorted({b.id for b in prog.facts.lib_bodies() if b.impl_self != paging and not b.file.startswith("/") and b.id != ctor
+                 and any(prog.qual(b, t.callee.target) == ctor for bb, t in prog.info(b.id).calls())
+                 and any("i32" == (b.local_ty(i) or "") or "pubsub_proto" in (b.local_ty(i) or "") for i in range(len(b.locals)))})
     if not pp:
-        raise CheckBroken("paging parser fn(..) -> Result<Paging, Status> not found")
+        raise CheckBroken("no body builds a Paging from a request")
     for pid in pp:
         pi = prog.info(pid)
         conv = [(bb, t) for bb, t in pi.calls(lambda c: c.path == "std::convert::TryInto::try_into" or c.path == "std::convert::TryFrom::try_from")]
@@ -161,7 +188,12 @@ def r13_1(prog, out):
             out.holds(key, pi.loc(ok_conv[0][0]), "i32 -> usize through TryFrom; the error becomes INVALID_ARGUMENT")
         else:
             out.undecided(key, prog.loc(pid), "size conversion not recognised")
-    tp = [b.id for b in prog.facts.lib_bodies() if b.kind == "Fn" and b.local_ty(0).startswith("std::result::Result<std::option::Option<%s" % A.ty("PageToken"))]
+    # the token parser: whoever turns the request's token string into a PageToken (a function of its own, or inside the
+    # paging parser)
+    ptok = A.ty("PageToken")
+    decoders = {b.id for b in prog.facts.lib_bodies() if b.impl_self == ptok and b.kind == "AssocFn" and not b.impl_trait and b.arg_count == 1
+                and (b.local_ty(1) or "").startswith("&") and "str" in (b.local_ty(1) or "") and ptok in (b.local_ty(0) or "")}
+    tp = sorted({b.id for b in prog.facts.lib_bodies() if b.impl_self != ptok and any(prog.qual(b, t.callee.target) in decoders for bb, t in prog.info(b.id).calls())})
     for tid in tp:
         ti = prog.info(tid)
         key = "token:%s" % prog.short(tid)
@@ -247,6 +279,22 @@ def token_alternatives(prog, bi, operand, depth=0, seen=None):
     seen.add(l)
     defs = bi.defs.get(l, [])
     if len(defs) >= 2:
+        # blocks only reached when the page's offset is None (`match page.offset { None => String::new(), Some(o) => .. }`):
+        # there the empty token is exactly "the page was empty"
+        none_region = set()
+        for blk in bi.body.blocks:
+            t = blk.term
+            if blk.cleanup or t.k != "switch" or blk.idx not in bi.cfg.reach:
+                continue
+            for st in blk.stmts:
+                if st.k == "assign" and st.rv.k == "discr" and t.discr is not None and t.discr.place is not None and st.lhs.is_local() \
+                        and st.lhs.local == t.discr.place.local and "Option<usize>" in (bi.body.place_ty(st.rv.place) or ""):
+                    if any(f[1] == "offset" for f in sl.of(bi.body.id, st.rv.place).fields):
+                        arms = dict(t.arms)
+                        none_t = arms.get(0, t.otherwise if 1 in arms else None)
+                        if none_t is not None:
+                            none_region |= bi.cfg.edge_dominated(blk.idx, none_t)
+        defs = [(db, di) for (db, di) in defs if db not in none_region]
         for (db, di) in defs:
             if di >= 0:
                 st = bi.stmt(db, di)
@@ -281,6 +329,39 @@ def token_alternatives(prog, bi, operand, depth=0, seen=None):
     return None
 
 
+def index_sites(bi):
+    return [blk.idx for blk in bi.body.blocks if not blk.cleanup and blk.idx in bi.cfg.reach and (
+        (blk.term.k == "assert" and blk.term.j.get("msg") == "BoundsCheck") or
+        (blk.term.k == "call" and blk.term.callee is not None and blk.term.callee.path.startswith("std::ops::Index")))]
+
+
+def index_guarded(bi, bb):
+    """`&v[start..]` with start = min(x, v.len()): in bounds for every x"""
+    t = bi.body.blocks[bb].term
+    if t.k != "call" or len(t.args) != 2:
+        return False
+    o = bi.trace(t.args[1])
+    if o.kind != "agg" or o.path:
+        return False
+    rv = bi.agg_at(o.data)
+    if not (rv.j.get("adt") or "").endswith("RangeFrom") or not rv.ops:
+        return False
+    so = bi.trace(rv.ops[0])
+    if so.kind != "call" or so.path:
+        return False
+    mt = bi.call_at(so.data)
+    if mt.callee is None or mt.callee.path.split("::")[-1] != "min" or len(mt.args) != 2:
+        return False
+    recv = bi.trace(t.args[0], transparent=None)
+    for a in mt.args:
+        ao = bi.trace(a)
+        if ao.kind == "call" and not ao.path and bi.call_at(ao.data).callee is not None and bi.call_at(ao.data).callee.path.endswith("::len"):
+            lo = bi.trace(bi.call_at(ao.data).args[0])
+            if lo.key() == recv.key() or (lo.kind == recv.kind and lo.data == recv.data):
+                return True
+    return False
+
+
 @rule("C13", "R13.2", "the three listing pipelines are siblings: scope filter, sort, skip(offset), take(size), next page", floor=3)
 def r13_2(prog, out):
     A = prog.anchors
@@ -293,6 +374,17 @@ def r13_2(prog, out):
         name = prog.short(bid)
         b = bi.body
         missing = [s for s in ("sort", "skip", "take", "next_page") if s not in st]
+        if missing and set(missing) <= {"skip", "take"}:
+            # the page may be cut by a hand-written loop (`for x in it { if page.len() == size { break } page.push(x) }`): that
+            # it equals skip(offset).take(size) is a fact about the loop's iterations, which these rules do not decide
+            loops = bi.cfg.loops()
+            pushes = [bb for bb, t in bi.calls(lambda c: c.path == "std::vec::Vec::<T, A>::push") if any(bb in blocks for blocks in loops.values())]
+            reads_paging = any(e.touches(A.cell("Paging", "size")) or e.touches(A.cell("Paging", "offset")) for e in prog.effects(bid))
+            unguarded = [x for x in index_sites(bi) if not index_guarded(bi, x)]
+            if pushes and reads_paging and not unguarded:
+                out.undecided("%s:stages" % name, bi.loc(pushes[0]), "the page is filled by a hand-written loop instead of skip(offset).take(size): "
+                              "equivalence with the sibling pipelines is not decided statically")
+                continue
         if missing:
             idx = [blk.idx for blk in b.blocks if not blk.cleanup and ((blk.term.k == "assert" and blk.term.j.get("msg") == "BoundsCheck")
                                                                      or (blk.term.k == "call" and blk.term.callee is not None and blk.term.callee.path.startswith("std::ops::Index")))]
@@ -621,10 +713,11 @@ def r13_6(prog, out):
                 if blk.cleanup or blk.idx not in ci.cfg.reach:
                     continue
                 t = blk.term
-                if t.k == "call" and t.callee is not None and t.callee.path in L.MAY_PANIC:
+                if t.k == "call" and t.callee is not None and t.callee.path in L.MAY_PANIC and not (t.exp and any("debug_assert" in e for e in t.exp)):
                     bad.append((cid, blk.idx, t.callee.path.split("::")[-1]))
                 if t.k == "assert" and t.j.get("msg") == "BoundsCheck":
                     bad.append((cid, blk.idx, "indexing"))
+            bad = [x for x in bad if not (x[0] == cid and x[2] == "index" and index_guarded(ci, x[1]))]
         # arithmetic on the (client supplied) offset inside the pipeline itself
         bi0 = prog.info(bid)
         from slicing import Slicer
